@@ -270,9 +270,14 @@ Render(doc, i, C, fuel) ==
             IN RenderSeq(doc, Children(doc, i), 1, C2, fuel, <<>>)
        [] OTHER -> <<>>
 
+(* the root svg element is a container too: its opacity composites the whole document as a group, *)
+(* display="none" on it hides everything                                                           *)
 Layers(doc) ==
-  RenderSeq(doc, Children(doc, 0), 1,
-            [m |-> Id, ctx |-> Inherit(DefaultCtx, doc.root), grp |-> <<>>, clips |-> <<>>, inst |-> 0,
+  LET e0 == OpacityE(doc.root)
+  IN IF Hidden(doc.root) \/ e0 = -1 THEN <<>>
+     ELSE RenderSeq(doc, Children(doc, 0), 1,
+            [m |-> Id, ctx |-> Inherit(DefaultCtx, doc.root),
+             grp |-> IF e0 = 0 THEN <<>> ELSE << << <<0, 0>>, e0>> >>, clips |-> <<>>, inst |-> 0,
              vp |-> <<doc.view[3], doc.view[4]>>],
             6, <<>>)
 
